@@ -614,6 +614,22 @@ def run_shard(shard, env):
                     res.violation("C11:" + e[0], str(e[1:]), c)
             return res.as_dict()
         url_failures(env, res, ctx)
+        # deterministic part of the PIL failure enumeration: every style x transparency
+        # setting x source mode for a plain format() of a file / PIL source
+        grid = [
+            dict(kind="pil-fault", style=st, frames=1, mode=mode, spec=spec + meth, source=src, what="format", cached=False, seed=1000 + j)
+            for j, (st, spec, mode, src, meth) in enumerate(
+                (st, spec, mode, src, meth)
+                for st in ("block", "kitty", "iterm2")
+                for spec in ("1.1", "1.1#", "1.1##", "1.1#102030")
+                for mode in ("RGBA", "RGB", "P")
+                for src in ("file", "pil")
+                for meth in (("",) if st == "block" else ("+W", "+L"))
+            )
+        ]
+        for j, g in enumerate(grid):
+            if j % SHARDS == shard["index"]:
+                pil_fault_sweep(g, env, res, ctx)
         for i in range(shard["hists"]):
             case = gen(rnd, shard["persona"])
             errs = run_history(case, env, res, ctx)
